@@ -249,6 +249,26 @@ def run(tier, seed, rng):
             failures.append(dict(kind='oracle', sig='regexp-sound-conditional', what='filter() with the regexp pre-filter returns other packets than without it for a conditional placeholder Any(startswith=, endswith=, contains=)',
                                  classes=csrc, cls=cls_, pattern=f"{fld}=Any({', '.join(f'{k}={v!r}' for k, v in cond.items())}), every other field Any()",
                                  corpus=[x.hex() for x in corp[cls_]], observed=oo))
+    # ---- a delimiter that is NOT consumed (consume_delimiter=False: the next field begins with it): finding D19
+    usrc = ("class UH(Packet):\n    key = Data(until_marker=b':', consume_delimiter=False)\n    val = Data(until_marker=b'\\n')\n"
+            "class UI(Packet):\n    key = Data(until_marker=b':', consume_delimiter=False)\n    sep = Int(1)\n    n = Int(1)\n")
+    ucorp = {'UH': [b'A:b\n', b'Host:example\n', b':\n', b'A::b\n'], 'UI': [b'A:\x07', b'AB::', b':\x00']}
+    ucases, umeta = [], []
+    for cls_, names, lits in (('UH', ['key', 'val'], [{'val': b':b'}, {'val': b':example'}, {'key': b'A'}, {}]),
+                              ('UI', ['key', 'sep', 'n'], [{'sep': 0x3a}, {'sep': 0x3a, 'n': 7}, {'n': 0x3a}, {}])):
+        for lit in lits:
+            pat = [[n, ({"x": lit[n].hex()} if isinstance(lit.get(n), bytes) else (lit[n] if n in lit else {"any": True}))] for n in names]
+            ucases.append(dict(cls=cls_, op='regexp', pattern=pat, corpus=[x.hex() for x in ucorp[cls_]]))
+            umeta.append((cls_, lit))
+    ures = run_impl(os.path.join(VERIF, 'harness', 'impl_pkt.py'), dict(header=decl.HEADER_PY, blocks=[dict(name='uncons', src=usrc)], modname='c18u', cases=ucases))
+    dist['unconsumed_delimiter_patterns'] = len(ucases)
+    for (cls_, lit), o in zip(umeta, ures['outcomes']):
+        oo = o.get('ok', {})
+        if 'with' not in oo or 'without' not in oo or oo['with'] != oo['without']:
+            failures.append(dict(kind='oracle', sig='D19 a delimiter that is not consumed is required twice by the regular expression',
+                                 what='filter() with the regexp pre-filter returns other packets than without it: the string left as Any contributes its delimiter, and so does the field that follows and begins with it',
+                                 classes=usrc, cls=cls_, pattern=', '.join(f"{k}={v!r}" for k, v in lit.items()) + ' (every other field Any())',
+                                 corpus=[x.hex() for x in ucorp[cls_]], observed=oo))
     # ---- Tie B: the model's regular expression, rendered, must be the implementation's, byte for byte
     files = []
     chunks = shard(coq_lines, 150)
